@@ -16,6 +16,10 @@ impl Harvest {
     pub fn first(&self, k: Kind) -> &Vec<u8> {
         &self.by_kind[&k][0]
     }
+    /// None when the honest run did not get that far (that is C01's business)
+    pub fn get(&self, k: Kind) -> Option<&Vec<u8>> {
+        self.by_kind.get(&k).and_then(|v| v.first())
+    }
 }
 
 /// one setup, one registration, one real login and one fake attempt
@@ -23,9 +27,9 @@ pub fn harvest(s: &dyn SuiteOps, seed: u64, idx: u64, hsm: bool) -> Harvest {
     let mut g = Gen::new(seed, &format!("gen/harvest/{}/{}", s.name(), idx));
     let mut b = WB::new(s, seed, idx, "harvest");
     let setup = b.setup(hsm);
-    let pw = small_pw(&mut g);
+    let pw = b"harvest-password".to_vec();
     let cred = small_cred(&mut g);
-    let ksf = gen_ksf(&mut g, s.ksf_family(), true);
+    let ksf = crate::suite::KsfArg::Absent;
     let (r, ops) = b.reg_ops(&mut g, setup, &pw, &pw, &cred, WIds::default(), ksf.clone(), false);
     for o in ops {
         b.push(o);
